@@ -3,6 +3,7 @@
 package simrand
 
 import (
+	"math"
 	"math/rand"
 	"sync"
 
@@ -25,28 +26,71 @@ var (
 	fallback = rand.New(rand.NewSource(1))
 )
 
+// u64 draws 64 bits: from the run's library PRNG inside a simulation,
+// otherwise from a locked fallback generator.
+//
 //go:norace
-func r() (*rand.Rand, func()) {
+func u64() uint64 {
 	if s := simrt.S; s != nil && simrt.Cur() != nil {
-		return s.LibRand(), func() {}
+		return s.LibUint64()
 	}
 	mu.Lock()
-	return fallback, mu.Unlock
+	defer mu.Unlock()
+	return fallback.Uint64()
 }
 
-func Seed(seed int64)                    {}
-func Int() int                           { g, u := r(); defer u(); return g.Int() }
-func Intn(n int) int                     { g, u := r(); defer u(); return g.Intn(n) }
-func Int31() int32                       { g, u := r(); defer u(); return g.Int31() }
-func Int31n(n int32) int32               { g, u := r(); defer u(); return g.Int31n(n) }
-func Int63() int64                       { g, u := r(); defer u(); return g.Int63() }
-func Int63n(n int64) int64               { g, u := r(); defer u(); return g.Int63n(n) }
-func Uint32() uint32                     { g, u := r(); defer u(); return g.Uint32() }
-func Uint64() uint64                     { g, u := r(); defer u(); return g.Uint64() }
-func Float32() float32                   { g, u := r(); defer u(); return g.Float32() }
-func Float64() float64                   { g, u := r(); defer u(); return g.Float64() }
-func NormFloat64() float64               { g, u := r(); defer u(); return g.NormFloat64() }
-func ExpFloat64() float64                { g, u := r(); defer u(); return g.ExpFloat64() }
-func Perm(n int) []int                   { g, u := r(); defer u(); return g.Perm(n) }
-func Shuffle(n int, swap func(i, j int)) { g, u := r(); defer u(); g.Shuffle(n, swap) }
-func Read(p []byte) (int, error)         { g, u := r(); defer u(); return g.Read(p) }
+func Seed(seed int64) {}
+func Uint64() uint64  { return u64() }
+func Uint32() uint32  { return uint32(u64() >> 32) }
+func Int63() int64    { return int64(u64() >> 1) }
+func Int31() int32    { return int32(u64() >> 33) }
+func Int() int        { return int(uint(Int63())) }
+func Int63n(n int64) int64 {
+	if n <= 0 {
+		panic("invalid argument to Int63n")
+	}
+	return int64(u64() % uint64(n))
+}
+func Int31n(n int32) int32 {
+	if n <= 0 {
+		panic("invalid argument to Int31n")
+	}
+	return int32(u64() % uint64(n))
+}
+func Intn(n int) int {
+	if n <= 0 {
+		panic("invalid argument to Intn")
+	}
+	return int(u64() % uint64(n))
+}
+func Float64() float64 { return float64(u64()>>11) / (1 << 53) }
+func Float32() float32 { return float32(u64()>>40) / (1 << 24) }
+func NormFloat64() float64 {
+	// sum of 12 uniforms (adequate for the library's non-cryptographic uses)
+	x := 0.0
+	for i := 0; i < 12; i++ {
+		x += Float64()
+	}
+	return x - 6
+}
+func ExpFloat64() float64 { return -math.Log(1 - Float64()) }
+func Perm(n int) []int {
+	m := make([]int, n)
+	for i := range m {
+		j := Intn(i + 1)
+		m[i] = m[j]
+		m[j] = i
+	}
+	return m
+}
+func Shuffle(n int, swap func(i, j int)) {
+	for i := n - 1; i > 0; i-- {
+		swap(i, Intn(i+1))
+	}
+}
+func Read(p []byte) (int, error) {
+	for i := range p {
+		p[i] = byte(u64())
+	}
+	return len(p), nil
+}
